@@ -126,6 +126,21 @@ def run_case(case):
             e = decl_of[e.name].e
         return e
 
+    CMP_OPS = {"<", ">", "<=", ">=", "==", "!="}
+
+    def cse_norm(e):
+        """`(a > 5) : 1` is the decider `a > 5` itself (output constant 1): one combinator for CSE."""
+        e = resolved(e)
+        while isinstance(e, lang.Paren):
+            e = e.e
+        if isinstance(e, lang.Cond) and isinstance(e.v, lang.Num) and e.v.v == 1:
+            c = e.c
+            while isinstance(c, lang.Paren):
+                c = c.e
+            if isinstance(c, lang.Bin) and c.op in CMP_OPS:
+                return c
+        return e
+
     # structural constancy is judged on the reference: same value under three unrelated valuations
     alt_envs = []
     for salt in (7, -13, 1001):
@@ -179,7 +194,7 @@ def run_case(case):
             excluded["F-folded-name"] = excluded.get("F-folded-name", 0) + 1
             continue
         if known.active("cse-drops-name") and case.get("optimize", True) and name in decl_of and any(
-                owner != name and not isinstance(x, (Ref, lang.Num)) and x == resolved(decl_of[name].e) for owner, x in all_sub):
+                owner != name and not isinstance(x, (Ref, lang.Num)) and cse_norm(x) == cse_norm(decl_of[name].e) for owner, x in all_sub):
             # open finding F-cse-name: of two names bound to structurally equal expressions only one survives CSE
             excluded["F-cse-name"] = excluded.get("F-cse-name", 0) + 1
             continue
